@@ -59,7 +59,6 @@ SqlColumn(name, vals, coerce, fparse, precision) ==
      ELSE LET p == [r \in 1..Len(vals) |-> Lookup1(fparse, vals[r].c)] IN
           IF \E r \in 1..Len(vals) : p[r] = <<2>> THEN [st |-> "miss"]
           ELSE IF \E r \in 1..Len(vals) : p[r] = <<1>> THEN [st |-> "err"]
-          ELSE IF precision > 0 THEN [st |-> "unspec"]
           ELSE [st |-> "ok", col |-> PlainCol(name, "float", [r \in 1..Len(vals) |-> IF p[r] = <<5>> THEN NullCell ELSE p[r]])]
   ELSE IF Cardinality(kinds) = 0 THEN [st |-> "err"]                       \* entirely NULL
   ELSE IF Cardinality(kinds) > 1 THEN [st |-> "unspec"]                    \* values of several types in one column
@@ -67,8 +66,26 @@ SqlColumn(name, vals, coerce, fparse, precision) ==
        IF k \in {"int", "bool"} THEN
           IF \E r \in 1..Len(vals) : vals[r].t = "null" THEN [st |-> "err"]
           ELSE [st |-> "ok", col |-> PlainCol(name, k, [r \in 1..Len(vals) |-> vals[r].c])]
-       ELSE IF k = "float" /\ precision > 0 THEN [st |-> "unspec"]
        ELSE [st |-> "ok", col |-> PlainCol(name, k, [r \in 1..Len(vals) |-> IF vals[r].t = "null" THEN NullCell ELSE vals[r].c])]
+
+(***************************************************************************)
+(* Precision(p), p > 0: every value delivered for a float column - native  *)
+(* float64 or coerced text - is rounded to p decimals; NULLs become NaN as *)
+(* before.  "x rounded to p decimals" is the binary64 nearest to            *)
+(* round-half-away(x 10^p) / 10^p; NaN and the infinities stay.  The        *)
+(* harness logs, per value, the set of admissible results computed with    *)
+(* exact rational arithmetic (fround: <<x, r1, r2, ..>>; more than one      *)
+(* where x 10^p is a tie within 10^-6 or beyond 2^31, where the last bit    *)
+(* is not fixed by the documentation; both zeros for a zero result).        *)
+(* ReadSqlSem gives the frame BEFORE rounding; RoundedCols the columns that *)
+(* are rounded; RoundOK judges one cell.                                    *)
+(***************************************************************************)
+RoundRow(fround, x) == SelectInSeq(fround, LAMBDA row : row[1] = x)
+RoundMiss(fround, x) == ~IsNull(x) /\ RoundRow(fround, x) = 0
+RoundOK(fround, x, r) ==
+  IF IsNull(x) THEN IsNull(r)        \* NULL and NaN stay NaN
+  ELSE LET k == RoundRow(fround, x) IN k # 0 /\ \E i \in 2..Len(fround[k]) : fround[k][i] = r
+RoundedCols(f, conf) == IF conf.precision > 0 /\ ~f.err THEN {c \in 1..Len(f.cols) : f.cols[c].typ = "float"} ELSE {}
 
 ReadSqlSem(names, rows, conf, fparse) ==
   IF Len(rows) = 0 THEN EmptyFrame
